@@ -151,7 +151,13 @@ func planAggregators(script any, init shared.RequestProcessor) (shared.RequestPr
 		if err != nil {
 			return nil, err
 		}
-		proc = planByWithout(proc, script.ByOrWithoutPrefix, script.ByOrWithoutSuffix)
+		if script.ByOrWithoutPrefix == nil && script.ByOrWithoutSuffix == nil {
+			// no grouping clause: one series with the empty label set (the ClickHouse planner plans `by ()`);
+			// without it every input series was aggregated on its own
+			proc = &ByWithoutPlanner{GenericPlanner: GenericPlanner{proc}, By: true}
+		} else {
+			proc = planByWithout(proc, script.ByOrWithoutPrefix, script.ByOrWithoutSuffix)
+		}
 		return maybeComparison(&AggOpPlanner{
 			AggregatorPlanner: AggregatorPlanner{
 				GenericPlanner: GenericPlanner{proc},
